@@ -57,7 +57,7 @@ fn op() -> BoxedStrategy<Op> {
         2 => any::<u16>().prop_map(|sel| Op::RecreatePair { sel }),
         1 => any::<u16>().prop_map(|sel| Op::RemoveRoute { sel }),
         3 => (any::<u16>(), gen::log_uniform(1, 1u128 << 30)).prop_map(|(sel, amount)| Op::ExecRoute { sel, amount: Uint128::new(amount) }),
-        7 => (0u8..4, prop_oneof![4 => 1u8..4, 2 => 1u8..=31, 1 => Just(30u8), 1 => Just(31u8)]).prop_map(|(what, limit)| Op::List { what, limit }),
+        7 => (0u8..4, prop_oneof![4 => 1u8..4, 2 => 1u8..=31, 1 => Just(30u8), 1 => Just(31u8), 2 => Just(0u8)]).prop_map(|(what, limit)| Op::List { what, limit }),
     ]
     .boxed()
 }
@@ -194,7 +194,7 @@ impl Check for Registries {
         "registry_history"
     }
     fn rule(&self) -> &'static str {
-        "universe of 9 assets (5 native denoms with registered decimals, 4 cw20 tokens with different decimals; fixed-length names so that no two asset sets concatenate to the same key); up to 40/120 operations {create pair / trio / vault / incentive with the assets in a generated order, remove pair / trio / vault (assets again in a generated order), add / remove swap route of 1..3 generated hops, execute a stored route, list pairs / trios / vaults / incentives with a page limit in 1..31 following the cursor to the end}. Reference model = sets of unordered asset sets. A create of an existing set in any order must be rejected and a new one accepted; every registry entry (queried with the assets in both orders) must equal what the child reports (address, assets in creation order, decimals, pool type, LP token; vault/incentive Config asset); removed entries are absent and can be created again; the concatenated pages equal the model set, each entry exactly once; a route is stored iff every hop is a registered pair and the hops chain, and executing a route with a de-registered hop fails. Non-trivial: >= 1 removal followed by a re-creation and >= 1 paginated listing spanning more than one page."
+        "universe of 9 assets (5 native denoms with registered decimals, 4 cw20 tokens with different decimals; fixed-length names so that no two asset sets concatenate to the same key); up to 40/120 operations {create pair / trio / vault / incentive with the assets in a generated order, remove pair / trio / vault (assets again in a generated order), add / remove swap route of 1..3 generated hops, execute a stored route, list pairs / trios / vaults / incentives with a page limit in 1..31 or none (default page size) following the cursor to the end}. Reference model = sets of unordered asset sets. A create of an existing set in any order must be rejected and a new one accepted; every registry entry (queried with the assets in both orders) must equal what the child reports (address, assets in creation order, decimals, pool type, LP token; vault/incentive Config asset); removed entries are absent and can be created again; the concatenated pages equal the model set, each entry exactly once; a route is stored iff every hop is a registered pair and the hops chain, and executing a route with a de-registered hop fails. Non-trivial: >= 1 removal followed by a re-creation and >= 1 paginated listing spanning more than one page."
     }
     fn strategy(&self, tier: Tier) -> BoxedStrategy<Case> {
         let max_ops = tier.pick(40usize, 120usize);
@@ -219,6 +219,11 @@ impl Check for Registries {
         // same handlers as the free operations
         let mut queue: std::collections::VecDeque<(usize, Op)> = c.ops.iter().cloned().enumerate().collect();
         while let Some((step, op)) = queue.pop_front() {
+            // every pair entry still equals what its child reports (not only right after creation: a
+            // later create / remove must not disturb the other entries)
+            for (a, b) in r.pairs.keys().cloned().collect::<Vec<_>>() {
+                r.check_pair_entry(a, b, step)?;
+            }
             let op = match &op {
                 Op::AddRouteValid { first, flip, next } => {
                     let keys: Vec<(usize, usize)> = r.pairs.keys().cloned().collect();
@@ -497,15 +502,20 @@ impl Check for Registries {
                     }
                 }
                 Op::List { what, limit } => {
+                    // 0 stands for "no limit given": the contracts then page by their default of 10
+                    let limit_opt: Option<u32> = if *limit == 0 { None } else { Some(*limit as u32) };
                     let limit = *limit as u32;
-                    let eff = limit.min(30) as usize;
+                    let eff = limit_opt.unwrap_or(10).min(30) as usize;
+                    if limit_opt.is_none() {
+                        rec.class("listing_without_a_limit");
+                    }
                     match what % 4 {
                         0 => {
                             let mut seen: Vec<String> = vec![];
                             let mut cursor: Option<[AssetInfo; 2]> = None;
                             let mut pages = 0;
                             loop {
-                                let page: factory::PairsResponse = r.w.query(&f, &factory::QueryMsg::Pairs { start_after: cursor.clone(), limit: Some(limit) }).map_err(Fail::new)?;
+                                let page: factory::PairsResponse = r.w.query(&f, &factory::QueryMsg::Pairs { start_after: cursor.clone(), limit: limit_opt }).map_err(Fail::new)?;
                                 ensure!(page.pairs.len() <= eff, "step {step}: page of {} pairs for limit {limit}", page.pairs.len());
                                 if page.pairs.is_empty() {
                                     break;
@@ -533,7 +543,7 @@ impl Check for Registries {
                             let mut cursor: Option<[AssetInfo; 3]> = None;
                             let mut pages = 0;
                             loop {
-                                let page: factory::TriosResponse = r.w.query(&f, &factory::QueryMsg::Trios { start_after: cursor.clone(), limit: Some(limit) }).map_err(Fail::new)?;
+                                let page: factory::TriosResponse = r.w.query(&f, &factory::QueryMsg::Trios { start_after: cursor.clone(), limit: limit_opt }).map_err(Fail::new)?;
                                 ensure!(page.trios.len() <= eff, "step {step}: page of {} trios for limit {limit}", page.trios.len());
                                 if page.trios.is_empty() {
                                     break;
@@ -561,7 +571,7 @@ impl Check for Registries {
                             let mut cursor: Option<Vec<u8>> = None;
                             let mut pages = 0;
                             loop {
-                                let page: vault_factory::VaultsResponse = r.w.query(&vf, &vault_factory::QueryMsg::Vaults { start_after: cursor.clone(), limit: Some(limit) }).map_err(Fail::new)?;
+                                let page: vault_factory::VaultsResponse = r.w.query(&vf, &vault_factory::QueryMsg::Vaults { start_after: cursor.clone(), limit: limit_opt }).map_err(Fail::new)?;
                                 ensure!(page.vaults.len() <= eff, "step {step}: page of {} vaults for limit {limit}", page.vaults.len());
                                 if page.vaults.is_empty() {
                                     break;
@@ -596,7 +606,7 @@ impl Check for Registries {
                             let mut cursor: Option<AssetInfo> = None;
                             let mut pages = 0;
                             loop {
-                                let page: incentive_factory::IncentivesResponse = r.w.query(&incf, &incentive_factory::QueryMsg::Incentives { start_after: cursor.clone(), limit: Some(limit) }).map_err(Fail::new)?;
+                                let page: incentive_factory::IncentivesResponse = r.w.query(&incf, &incentive_factory::QueryMsg::Incentives { start_after: cursor.clone(), limit: limit_opt }).map_err(Fail::new)?;
                                 ensure!(page.len() <= eff, "step {step}: page of {} incentives for limit {limit}", page.len());
                                 if page.is_empty() {
                                     break;
